@@ -16,6 +16,7 @@ import numpy as np
 from tflv import core
 from tflv import modes
 from tflv.oracles import kfl as okfl
+from tflv.oracles import cpwl
 from tflv.oracles import lattice as ol
 
 PROPERTY = "C14"
@@ -125,12 +126,12 @@ def _pwl_fn(ctx, rng, st):
   imax = imin + irange
   omin, omax = float(rng.choice([0.0, -2.0])), None
   omax = omin + float(rng.choice([1.0, 5.0]))
-  mag = float(rng.choice([0.5, 2.0, 6.0]))
+  mag = float(rng.choice([0.5, 2.0, 6.0, 40.0]))          # 40: increments / gaps spanning many orders of magnitude, exp() near overflow
   derived = bool(use_missing and rng.rand() < .5)          # imputed output derived from the last output parameter
   miv = float(np.float32(imin - 3.0)) if use_missing else None
   mov = float(omin + 0.3 * (omax - omin)) if (use_missing and not derived) else None
   out_size = nk - cmin - cmax - cyc + derived
-  kin = (rng.normal(size=(1, units, nk - 2)) * mag).astype(np.float32)
+  kin = (rng.normal(size=(1, units, nk - 2)) * min(mag, 6.0)).astype(np.float32)   # gaps stay resolvable in float32 (degenerate gaps: C15 / KF-C05-a)
   kout = (rng.normal(size=(1, units, out_size)) * mag).astype(np.float32)
   B = 12
   wide = bool(units > 1 and rng.rand() < .5)
@@ -160,10 +161,32 @@ def _pwl_fn(ctx, rng, st):
     layer.missing_output.assign(mo.reshape(1, units).astype(np.float32))
   logits = np.concatenate([np.zeros((units, 1), dtype=np.float32), kin[0]], axis=1)
   layer.interpolation_logits.assign(logits)
-  layer.kernel.assign(heights.T.astype(np.float32))
+  # the "corresponding keypoints and weights" come from an independent float64 derivation (tflv/oracles/cpwl.py), not from
+  # the function's own return_derived_parameters: a defect in the derivation itself must not be copied into the twin
+  refs = [cpwl.derive(kin[0, u], kout[0, u], imin, imax, omin, omax, mono, cmin, cmax, cyc, derived) for u in range(units)]
+  ref_heights = np.stack([np.concatenate([r[1][:1], np.diff(r[1])]) for r in refs], axis=1)       # (nk, units)
+  layer.kernel.assign(ref_heights.astype(np.float32))
   y1 = layer(tf.constant(x)).numpy().astype(np.float64)
   _pair(ctx, "pair/pwl_fn=learned-layer", y, y1, tol, "pwl_calibration_fn vs PWLCalibration(learned_interior)",
         {"mono": mono, "nk": nk, "units": units})
+  # and the function against the float64 reference itself, input by input (allowance as in C15: a piece is uncertain only
+  # for inputs within float32 resolution of it)
+  for u in range(units):
+    kps_u, outs_u, mo_u = refs[u]
+    hu = np.abs(np.diff(outs_u))
+    lens_u = np.maximum(np.diff(kps_u), 1e-300)
+    for b in range(B):
+      xv = float(x[b, u if wide else 0])
+      if use_missing and x[b, u if wide else 0] == np.float32(miv):
+        want = mo_u if derived else mov
+        tq = core.REL_TOL * core.scale_of([omin, omax])
+      else:
+        want = cpwl.evaluate(xv, kps_u, outs_u)
+        near = (xv >= kps_u[:-1] - 4 * delta) & (xv <= kps_u[1:] + 4 * delta)
+        tq = core.REL_TOL * core.scale_of([omin, omax]) + float(np.sum(hu * np.where(near, np.minimum(1.0, delta / lens_u), 0.0)))
+      e = abs(y[b, u] - want) if np.isfinite(y[b, u]) else float("inf")
+      ctx.check("pair/pwl_fn=float64-reference", e <= tq, "pwl_calibration_fn(%.9g) = %.9g, float64 reference %.9g (unit %d, tol %.3g)" % (xv, y[b, u], want, u, tq),
+                info={"x": xv, "unit": u, "mono": mono, "clamp": [cmin, cmax], "cyclic": cyc, "kout": kout[0, u].tolist(), "kin": kin[0, u].tolist()}, ratio=e / tq)
   # (ii) fixed keypoints, when well conditioned
   if deltas.min() >= 1e-3 * irange and units == 1:
     kp = np.concatenate([[imin], imin + np.cumsum(deltas[0])])
@@ -173,7 +196,7 @@ def _pwl_fn(ctx, rng, st):
     fixed(tf.constant(x))
     if derived:
       fixed.missing_output.assign(mo.reshape(1, 1).astype(np.float32))
-    fixed.kernel.assign(heights.T.astype(np.float32))
+    fixed.kernel.assign(ref_heights.astype(np.float32))
     y2 = fixed(tf.constant(x)).numpy().astype(np.float64)
     _pair(ctx, "pair/pwl_fn=fixed-layer", y, y2, tol * 2, "pwl_calibration_fn vs PWLCalibration(fixed derived keypoints)")
   return float(y.max() - y.min()) > 0, core.arr_digest(kin, kout, x)
@@ -248,17 +271,36 @@ def _aggregation(ctx, rng, st):
   agg = tfl.layers.Aggregation(inner)
   B = int(rng.randint(2, 6))
   lens = [int(rng.randint(1, 6)) for _ in range(B)]
+  if rng.rand() < .35:
+    # examples without any element (an empty ragged row, in the middle or at the end of the batch): every example still
+    # gets its own output row, and the non-empty examples are unaffected (the mean of an empty row itself is not judged)
+    for b in rng.choice(B, size=int(rng.randint(1, 3)), replace=False):
+      lens[int(b)] = 0
+    if rng.rand() < .5:
+      lens[-1] = 0
+    if all(l == 0 for l in lens):
+      lens[0] = 2
   rows = [[rng.uniform(-0.5, 2.5, size=l).astype(np.float32) for l in lens] for _ in range(nfeat)]
   rag = [tf.ragged.constant([r.tolist() for r in feat], dtype=tf.float32, ragged_rank=1) for feat in rows]
   y = agg(rag if nfeat > 1 else rag).numpy() if nfeat > 1 else agg(rag).numpy()
   ref = []
   for b in range(B):
+    if lens[b] == 0:
+      ref.append(np.nan)
+      continue
     feats = [tf.constant(rows[f][b].reshape(-1, 1)) for f in range(nfeat)]
     ref.append(float(np.mean(inner(feats if nfeat > 1 else feats).numpy())))
   ref = np.array(ref).reshape(B, 1)
   ctx.cls("aggregation:features=%d" % nfeat, "aggregation:max_len=%d" % max(lens), "aggregation:min_len=%d" % min(lens))
-  _pair(ctx, "pair/aggregation=ragged-mean", y.reshape(B, 1), ref, 1e-5 * core.scale_of(ref), "Aggregation vs per-example mean over ragged elements",
+  ok_rows = int(np.asarray(y).shape[0]) == B
+  ctx.check("pair/aggregation=one-row-per-example", ok_rows, "Aggregation returned %d rows for %d examples (row lengths %s)" % (int(np.asarray(y).shape[0]), B, lens),
+            info={"lens": lens})
+  if not ok_rows:
+    return True, core.arr_digest(np.array(lens))
+  keep = np.array([l > 0 for l in lens])
+  _pair(ctx, "pair/aggregation=ragged-mean", y.reshape(B, 1)[keep], ref[keep], 1e-5 * core.scale_of(ref[keep]), "Aggregation vs per-example mean over ragged elements",
         {"lens": lens})
+  ref = ref[keep]
   return float(np.ptp(ref)) > 0, core.arr_digest(ref, np.array(lens))
 
 
